@@ -13,9 +13,12 @@ ENUM_SCHEMES = ["CJJ14.PiBas", "CJJ14.Pi2Lev", "DP17.Pi"]
 ENUM_BUFS = [8192, 16]
 REF_DB = {hx(b"kw1"): ["A", "B"], hx(b"kw2"): ["C"]}  # identifiers are expanded to the scheme's identifier size
 MAX_OPS = 24
+BIG_DB = {"big": 16000}  # one keyword with 16 000 postings: a PiBas index of about 1.4 MB
 
 
 def expand_db(dbspec, z):
+    if "big" in dbspec and isinstance(dbspec["big"], int):
+        return {b"big-keyword": [i.to_bytes(z, "big") for i in range(1, dbspec["big"] + 1)], b"kw2": [b"\xee" * z]}
     out = {}
     for k, ids in dbspec.items():
         out[unhx(k)] = [(i.encode() * z)[:z] if not isinstance(i, (bytes, bytearray)) and len(i) < 3 else unhx(i) for i in ids]
@@ -77,6 +80,23 @@ class C13(P.Property):
                             plans.append(self.base_plan(scheme, buf, [{"role": role, "when": when, "k": k}]))
         if tier == "thorough":
             plans.extend(self._enumerate_pairs("CJJ14.PiBas", 8192))
+            plans.extend(self._enumerate_big())
+        return plans
+
+    def _enumerate_big(self):
+        """thorough tier: the single-crash enumeration once more with an index of about 1.4 MB (code paths that only large
+        payloads take: chunked writes, frames beyond 1 MiB)"""
+        key = ("CJJ14.PiBas", 8192, "big")
+        if key not in self._baseline:
+            res = self.execute(self.base_plan("CJJ14.PiBas", 8192, [], db=BIG_DB))
+            self._baseline[key] = {} if res.violations else dict(res.extra["role_k"])
+            if res.violations:
+                return [self.base_plan("CJJ14.PiBas", 8192, [], db=BIG_DB)]
+        plans = []
+        for role, n in sorted(self._baseline[key].items()):
+            for k in range(n):
+                for when in ("before", "after"):
+                    plans.append(self.base_plan("CJJ14.PiBas", 8192, [{"role": role, "when": when, "k": k}], db=BIG_DB))
         return plans
 
     def _enumerate_pairs(self, scheme, buf):
